@@ -4,6 +4,7 @@ import (
 	"bytes"
 	"fmt"
 	"math/rand"
+	"reflect"
 	"regexp"
 
 	"github.com/cinar/indicator/v2/asset"
@@ -114,6 +115,12 @@ func (c09) Gen(rng *rand.Rand, tier string, k int) *Case {
 	if rng.Intn(4) == 0 {
 		c.Variant = 1 + rng.Intn(2) // non-period parameters (smoothing, percentage, multiplier...) off their defaults
 	}
+	if c.Mode == "sequential" && rng.Intn(3) == 0 {
+		// the caller reconfigures the instance between two calls (the exported period fields are the
+		// configuration): anything derived from them and kept on the instance goes stale
+		k := 1 + rng.Intn(len(c.Calls)-1)
+		c.Calls[k].Rescale = 2 + rng.Intn(2)
+	}
 	return c
 }
 
@@ -141,6 +148,12 @@ func (c09) Shrinks(c *Case) []*Case {
 			d := *c
 			d.Calls = append([]CallSpec{}, c.Calls...)
 			d.Calls[i].Report = false
+			out = append(out, &d)
+		}
+		if cs.Rescale > 1 {
+			d := *c
+			d.Calls = append([]CallSpec{}, c.Calls...)
+			d.Calls[i].Rescale = 0
 			out = append(out, &d)
 		}
 	}
@@ -195,8 +208,22 @@ func (c09) Run(c *Case, st *Stats) []Violation {
 			inputs[k] = floatInputs(e.Sig, lens, cs.Shape, cs.DataSeed)
 			res[k] = &PipeResult[F]{}
 		}
+		// freshInd: a fresh instance in the configuration the shared one has at call k
+		freshInd := func(k int) *IndInstance {
+			f := makeIndV(e, c.Cfg, c.Scale, c.Variant)
+			for _, cs := range c.Calls[:k+1] {
+				if cs.Rescale > 1 && sequential && !e.NoScale {
+					rescaleExported(reflect.ValueOf(f.Inst), cs.Rescale, 0)
+				}
+			}
+			return f
+		}
 		simOut = simulate(opts, func(s *simrt.Sim) {
 			for k := range c.Calls {
+				if c.Calls[k].Rescale > 1 && sequential && !e.NoScale {
+					rescaleExported(reflect.ValueOf(shared.Inst), c.Calls[k].Rescale, 0)
+					st.Faults["instance-reconfigured-between-calls"]++
+				}
 				spawnPipe(c.Cap, inputs[k], shared.Build(), res[k])
 				if sequential && s.Run() != nil {
 					return
@@ -210,7 +237,7 @@ func (c09) Run(c *Case, st *Stats) []Violation {
 		for k := range c.Calls {
 			if ok, kind, detail := termination(simOut, res[k].Closed, res[k].ProdDone, res[k].Built); !ok {
 				// a run that does not terminate with a fresh instance either is C03's business
-				fresh := runPipe(PipeOpts{SimOpts: SimOpts{Policy: simrt.PolicySpec{Name: "fifo"}}}, inputs[k], makeIndV(e, c.Cfg, c.Scale, c.Variant).Build())
+				fresh := runPipe(PipeOpts{SimOpts: SimOpts{Policy: simrt.PolicySpec{Name: "fifo"}}}, inputs[k], freshInd(k).Build())
 				st.noteSim(&fresh.SimOut)
 				if okf, _, _ := termination(&fresh.SimOut, fresh.Closed, fresh.ProdDone, fresh.Built); okf {
 					add(kind+"-on-shared-instance", fmt.Sprintf("call %d: %s (a fresh instance terminates)", k, detail))
@@ -221,7 +248,7 @@ func (c09) Run(c *Case, st *Stats) []Violation {
 			}
 		}
 		for k := range c.Calls {
-			fresh := runPipe(PipeOpts{SimOpts: SimOpts{Policy: simrt.PolicySpec{Name: "fifo"}}}, inputs[k], makeIndV(e, c.Cfg, c.Scale, c.Variant).Build())
+			fresh := runPipe(PipeOpts{SimOpts: SimOpts{Policy: simrt.PolicySpec{Name: "fifo"}}}, inputs[k], freshInd(k).Build())
 			st.noteSim(&fresh.SimOut)
 			if okf, _, _ := termination(&fresh.SimOut, fresh.Closed, fresh.ProdDone, fresh.Built); !okf {
 				continue
@@ -243,6 +270,15 @@ func (c09) Run(c *Case, st *Stats) []Violation {
 			res[k] = &PipeResult[strategy.Action]{}
 			html[k] = &bytes.Buffer{}
 		}
+		freshStrat := func(k int) strategy.Strategy {
+			f := buildStrategyV(c.spec(), c.Variant)
+			for _, cs := range c.Calls[:k+1] {
+				if cs.Rescale > 1 && sequential {
+					rescaleExported(reflect.ValueOf(f), cs.Rescale, 0)
+				}
+			}
+			return f
+		}
 		report := func(s strategy.Strategy, k int, buf *bytes.Buffer, done *bool) {
 			in := make(chan *asset.Snapshot, c.Cap)
 			simrt.GoKind("prod", func() {
@@ -262,6 +298,10 @@ func (c09) Run(c *Case, st *Stats) []Violation {
 		}
 		simOut = simulate(opts, func(s *simrt.Sim) {
 			for k, cs := range c.Calls {
+				if cs.Rescale > 1 && sequential {
+					rescaleExported(reflect.ValueOf(shared), cs.Rescale, 0)
+					st.Faults["instance-reconfigured-between-calls"]++
+				}
 				if cs.Report {
 					report(shared, k, html[k], &rendered[k])
 				} else {
@@ -282,7 +322,7 @@ func (c09) Run(c *Case, st *Stats) []Violation {
 			if cs.Report {
 				var fbuf bytes.Buffer
 				fdone := false
-				fo := simulate(SimOpts{Policy: simrt.PolicySpec{Name: "fifo"}}, func(s *simrt.Sim) { report(buildStrategyV(c.spec(), c.Variant), k, &fbuf, &fdone) })
+				fo := simulate(SimOpts{Policy: simrt.PolicySpec{Name: "fifo"}}, func(s *simrt.Sim) { report(freshStrat(k), k, &fbuf, &fdone) })
 				st.noteSim(fo)
 				if !fdone {
 					st.Skipped["not-evaluated:fresh-instance-does-not-terminate(C03)"]++
@@ -301,7 +341,7 @@ func (c09) Run(c *Case, st *Stats) []Violation {
 			}
 			fresh := runPipe(PipeOpts{SimOpts: SimOpts{Policy: simrt.PolicySpec{Name: "fifo"}}}, [][]*asset.Snapshot{series[k]},
 				func(in []<-chan *asset.Snapshot) []<-chan strategy.Action {
-					return []<-chan strategy.Action{buildStrategyV(c.spec(), c.Variant).Compute(in[0])}
+					return []<-chan strategy.Action{freshStrat(k).Compute(in[0])}
 				})
 			st.noteSim(&fresh.SimOut)
 			okf, _, _ := termination(&fresh.SimOut, fresh.Closed, fresh.ProdDone, fresh.Built)
